@@ -1081,8 +1081,24 @@ func (st *plState) freeSites(pools []*plPool) ([]plFree, error) {
 					recv := p.src(se.X)
 					uses := 0
 					if !direct {
+						// names bound earlier in the block to something read out of the object (`bs := buf.Bytes()`) alias its
+						// storage; `x := recv.String()` copies and is not an alias
+						aliases := []string{recv}
+						for _, s := range list[:i] {
+							as, ok := s.(*ast.AssignStmt)
+							if !ok || len(as.Rhs) != 1 || countReads(p, &ast.ExprStmt{X: as.Rhs[0]}, recv) == 0 || p.src(as.Rhs[0]) == recv+".String()" {
+								continue
+							}
+							for _, l := range as.Lhs {
+								if id, ok := l.(*ast.Ident); ok && id.Name != "_" && id.Name != "err" {
+									aliases = append(aliases, id.Name)
+								}
+							}
+						}
 						for _, s := range list[i+1:] {
-							uses += countReads(p, s, recv)
+							for _, a := range aliases {
+								uses += countReads(p, s, a)
+							}
 						}
 					}
 					out = append(out, plFree{fn: p.fnName(fd), recv: recv, origin: origin, deferred: deferred, usesAfter: uses, ty: ty, method: se.Sel.Name})
